@@ -1,10 +1,46 @@
-# Per-property configuration of bin/check: generated obligations, trusted-base additions, evidence texts.
+# Per-property configuration of bin/check and bin/mkmanifest.
 GO_EXT = 'external Go code not in /repo is trusted: Go runtime and standard library'
+PRIMS = 'Gallina primitives prim/*.v (SHA-1/256/384, MD4, MD5, HMAC, PBKDF2, AES, DES/3DES, RC4, CBC) written from FIPS/RFC text, closed by published vectors (vm_compute Examples) and compared with Go crypto on every run through the streams'
+CIPHER_HYP = 'block ciphers as permutations: AES/3DES decrypt(encrypt b) = b is a hypothesis of the round-trip theorems (validated by vectors and by the streams, not proved)'
+MAC_ASSUMP = 'computational assumption, stated not proved: HMAC unforgeability / collision resistance (a different byte string is not in the accepted set) — decided per concrete tampered input by evaluation'
+TECH = 'Coq proof over hand-written Gallina model + differential correspondence (extracted model vs implementation) + direct oracle'
 
 CFG = {
+ 'C05': {
+  'level': 'Theorems: RFC 4757 message-type encoding is the 4-byte little-endian alias map and is injective on non-aliased usages over the whole 32-bit range. The RFC implementation of all six etypes is the Coq model itself (Crypto.v on Gallina primitives); interoperability in both directions is decided on every run: the model decrypts the library\'s ciphertexts to the same plaintext, recovers the confounder and reproduces the ciphertext byte for byte (so the library decrypts what the model encrypts), for every plaintext length and the usage set.',
+  'note': 'Partial: the decrypt-after-encrypt theorem for every length/usage/key (CTS and CBC round trip over a cipher hypothesis) is in progress; until then dec(enc m) = m is exercised, not proved. Trusted: Coq kernel, extraction, harness, Gallina primitives validated by vectors.',
+  'rule': 'every etype x plaintext length 0..130 (quick: block-boundary lengths + sample) x library usages {1,2,3,6,7,8,9,11,13,17,22..25,56} and boundary usages {127,128,255,256,1024,2^31} x random keys; per case: model decrypts Go ciphertext, recovers confounder, re-encrypts to identical bytes; Go round trip; two encryptions differ; ciphertext length.',
+  'trusted': [GO_EXT, PRIMS, CIPHER_HYP],
+  'assumptions': ['confounder randomness comes from crypto/rand (distinctness of two encryptions is observed, not proved)'],
+  'partial': 'dec_enc for all inputs not yet a theorem',
+ },
+ 'C06': {
+  'level': 'Theorems: every input shorter than confounder + MAC yields an error for all six etypes, and decryption never panics on any byte string (model). The acceptance set is exercised exhaustively on the implementation: every single-bit flip, truncation, extension, block swap, every other usage of the usage set (modulo RFC 4757 aliases) and unrelated keys must be rejected, and the extracted model must agree on each sampled case and on every case the implementation accepts.',
+  'note': 'Partial: "accepted implies image of encryption under the same key and usage" is a theorem only up to the MAC comparison (computational assumption for the rest). Trusted: Coq kernel, extraction, harness, primitives.',
+  'rule': 'every etype x plaintext lengths 0..64 (quick: boundary lengths): every single-bit flip of the ciphertext (exhaustive), every truncation length, appended/prepended bytes, swapped blocks, every other usage (modulo 3,9->8 and 23->13 for rc4), 3 random keys and one key bit flip; genuine ciphertext accepted; RFC 4757 aliases decrypt each other.',
+  'trusted': [GO_EXT, PRIMS, MAC_ASSUMP],
+  'assumptions': [MAC_ASSUMP],
+  'partial': 'exact acceptance-set theorem pending; MAC unforgeability is an assumption',
+ },
+ 'C07': {
+  'level': 'Theorems: verification is true exactly for the RFC value (verify_iff), the value has the length the checksum type prescribes (so no prefix or extension verifies), checksum type ids map to exactly the IANA-assigned encryption families, RFC 4757 message types are injective on non-aliased usages. The RFC value is computed by the Coq model (independent implementation) and compared with GetChecksumHash for every type, data length and usage on every run.',
+  'note': 'Trusted: Coq kernel, extraction, harness, Gallina primitives validated by vectors. "Other data/key/usage does not verify" is HMAC collision resistance: decided per concrete case by evaluation.',
+  'rule': 'every checksum type {12,15,16,19,20,-138} x data lengths 0..200 (quick: boundary lengths around the hash block + sample) x usage set x random keys: GetChecksumHash vs model; VerifyChecksum on the exact value, every truncation, three one-byte extensions, every single-bit flip, other data, other key, every other usage.',
+  'trusted': [GO_EXT, PRIMS, MAC_ASSUMP],
+  'assumptions': [MAC_ASSUMP],
+ },
  'C14': {
+  'level': 'Theorems (coq/props/C14.v): the parser reads every file of the MIT keytab grammar (both versions, holes, optional 32-bit kvno) to exactly the entries written; Unmarshal(Marshal kt) = kt for every representable keytab; key look-up is sound, complete and prefers the newest entry; the parser is total. The model is tied to the code by running the extracted model and the implementation on the same generated files, keytabs and look-ups on every run.',
+  'note': 'Trusted: Coq kernel, extraction (ExtrOcamlBasic), the harness and its independent keytab writer; the model is hand-written and validated by the correspondence stream, not generated. Version 1 byte order is little-endian as on this platform.',
   'rule': 'keytab files rendered by the independent writer of harness/cmd/run/c14.go from generated models (versions 1-2, 0-8 entries, 0-4 components, empty/255+ byte/binary names, etype ids over the int16 range, 8-bit and 32-bit kvno, holes, timestamps over the int32 range) -> Unmarshal; Marshal of parsed and field-mutated keytabs; present and near-miss look-ups (8 kinds); truncations and byte substitutions. A case is one (function, input, observable) line; distinct = distinct lines.',
   'trusted': [GO_EXT + ' (encoding/binary, time.Unix)', 'native byte order assumed little-endian (amd64/arm64) for version 1 files; file length < 2^31'],
   'assumptions': ['get_key_complete assumes no entry has an empty key value (GetEncryptionKey treats an empty key as not found)'],
+ },
+ 'C17': {
+  'level': 'Theorems (coq/props/C17.v): Marshal of both tokens is exactly the RFC 4121 4.2.6 layout; Unmarshal(Marshal t) = t; Marshal is injective; the signed data is { payload | header with EC/RRC zeroed } and determines payload, flags and sequence number (every transmitted bit except EC/RRC is bound); Verify is true exactly when the carried checksum is the keyed checksum of that data under the presented key and usage (for every checksum function; C07 characterises the concrete one); decoding rejects wrong id, filler, direction, short input. Correspondence: token bytes, decoded fields and Verify verdicts (with the RFC checksum computed by the Coq crypto model) for every etype on every run.',
+  'note': 'Trusted: Coq kernel, extraction, harness, Gallina primitives. "A changed field does not verify" beyond injectivity of the signed data is HMAC collision resistance (assumption, decided per case by evaluation).',
+  'rule': 'every etype x payload lengths 0..300 (quick: 19 lengths) x flags 0..7 x sequence numbers {0,1,2^32,2^64-1} x usages 22..25 x both expected directions: Marshal bytes, Unmarshal fields, Verify verdict vs model; 8 mutations between checksum and verification; every single-bit flip of marshalled tokens (exhaustive for the first tokens per etype) must verify iff the bit is in RRC; every truncation.',
+  'trusted': [GO_EXT, PRIMS, MAC_ASSUMP],
+  'assumptions': [MAC_ASSUMP],
  },
 }
